@@ -395,7 +395,14 @@ def rule_i1(ctx):
                     "coordinates (wrong direction)")
             where = loc(f, sn)
         if len(dels) != 1:
-            problems.append(f"set and get use different delegates {sorted(dels)}")
+            # the two paths go through different accessors (a setter written
+            # as a closed form through another model): the name-inverse
+            # pairing this rule reads does not apply -- not judged
+            r.note("I1", loc(f, f.node), inst,
+                   f"set and get paths use different delegates "
+                   f"{sorted(dels)}: the conversion pairing is not "
+                   "comparable (not judged)")
+            continue
         else:
             d = next(iter(dels))
             if setc and _tok(d[5:]) != setc[0][1]:
